@@ -55,7 +55,7 @@ def evalK (chunk : List Col) (n : Nat) : KExpr → KOut Col × List String
     | (.ok ca, ta) =>
       match evalK chunk n b with
       | (.ok cb, tb) =>
-        let tg := if (ca.ty == .null || cb.ty == .null) then ["kernel:null-typed-operand"] else []
+        let tg := []
         (Col.arith op ca cb, ta ++ tb ++ tg)
       | (r, tb) => (r, ta ++ tb)
     | (r, ta) => (r, ta)
@@ -64,7 +64,7 @@ def evalK (chunk : List Col) (n : Nat) : KExpr → KOut Col × List String
     | (.ok ca, ta) =>
       match evalK chunk n b with
       | (.ok cb, tb) =>
-        let tg := if (ca.ty == .null || cb.ty == .null) then ["kernel:null-typed-operand"] else []
+        let tg := []
         (Col.cmp op ca cb, ta ++ tb ++ tg)
       | (r, tb) => (r, ta ++ tb)
     | (r, ta) => (r, ta)
@@ -73,7 +73,7 @@ def evalK (chunk : List Col) (n : Nat) : KExpr → KOut Col × List String
     | (.ok ca, ta) =>
       match evalK chunk n b with
       | (.ok cb, tb) =>
-        let tg := if (ca.ty == .null || cb.ty == .null) then ["kernel:null-typed-operand"] else []
+        let tg := []
         (Col.and ca cb, ta ++ tb ++ tg)
       | (r, tb) => (r, ta ++ tb)
     | (r, ta) => (r, ta)
@@ -82,18 +82,18 @@ def evalK (chunk : List Col) (n : Nat) : KExpr → KOut Col × List String
     | (.ok ca, ta) =>
       match evalK chunk n b with
       | (.ok cb, tb) =>
-        let tg := if (ca.ty == .null || cb.ty == .null) then ["kernel:null-typed-operand"] else []
+        let tg := []
         (Col.or ca cb, ta ++ tb ++ tg)
       | (r, tb) => (r, ta ++ tb)
     | (r, ta) => (r, ta)
   | .not a =>
     match evalK chunk n a with
-    | (.ok ca, ta) => (Col.not ca, ta ++ (if ca.ty == .null then ["kernel:null-typed-operand"] else []))
+    | (.ok ca, ta) => (Col.not ca, ta ++ [])
     | (r, ta) => (r, ta)
   | .neg a =>
     match evalK chunk n a with
     | (.ok ca, ta) =>
-      let tg := if ca.ty == .null then ["kernel:null-typed-operand"] else []
+      let tg := []
       (Col.neg ca, ta ++ tg)
     | (r, ta) => (r, ta)
   | .isnull a =>
@@ -107,8 +107,7 @@ def evalK (chunk : List Col) (n : Nat) : KExpr → KOut Col × List String
       | (.ok ct, tt) =>
         match evalK chunk n e with
         | (.ok ce, te) =>
-          let tg := if cc.ty == .null || ct.ty == .null || ce.ty == .null
-                then ["kernel:null-typed-operand"] else []
+          let tg := []
           (Col.select cc ct ce, tc ++ tt ++ te ++ tg)
         | (r, te) => (r, tc ++ tt ++ te)
       | (r, tt) => (r, tc ++ tt)
@@ -122,14 +121,14 @@ def evalK (chunk : List Col) (n : Nat) : KExpr → KOut Col × List String
     | (.ok ca, ta) =>
       match evalK chunk n b with
       | (.ok cb, tb) =>
-        (Col.concat ca cb, ta ++ tb ++ (if ca.ty == .null || cb.ty == .null then ["kernel:null-typed-operand"] else []))
+        (Col.concat ca cb, ta ++ tb ++ [])
       | (r, tb) => (r, ta ++ tb)
     | (r, ta) => (r, ta)
 
   | .like a p =>
     match evalK chunk n a with
     | (.ok ca, ta) =>
-      (Col.like p ca, ta ++ (if ca.ty == .null then ["kernel:null-typed-operand"] else []))
+      (Col.like p ca, ta ++ [])
     | (r, ta) => (r, ta)
   | .substring s b c =>
     match evalK chunk n s with
@@ -139,14 +138,14 @@ def evalK (chunk : List Col) (n : Nat) : KExpr → KOut Col × List String
         match evalK chunk n c with
         | (.ok cc, tc) =>
           (Col.substring cs cb cc, ts ++ tb ++ tc ++
-            (if cs.ty == .null || cb.ty == .null || cc.ty == .null then ["kernel:null-typed-operand"] else []))
+            [])
         | (r, tc) => (r, ts ++ tb ++ tc)
       | (r, tb) => (r, ts ++ tb)
     | (r, ts) => (r, ts)
   | .replace a frm to =>
     match evalK chunk n a with
     | (.ok ca, ta) =>
-      (Col.replace frm to ca, ta ++ (if ca.ty == .null then ["kernel:null-typed-operand"] else []))
+      (Col.replace frm to ca, ta ++ [])
     | (r, ta) => (r, ta)
   | .repeat_ s k =>
     match evalK chunk n s with
@@ -154,7 +153,7 @@ def evalK (chunk : List Col) (n : Nat) : KExpr → KOut Col × List String
       match evalK chunk n k with
       | (.ok ck, tk) =>
         (Col.repeat_ cs ck, ts ++ tk ++
-          (if cs.ty == .null || ck.ty == .null then ["kernel:null-typed-operand"] else []))
+          [])
       | (r, tk) => (r, ts ++ tk)
     | (r, ts) => (r, ts)
 
@@ -178,6 +177,17 @@ def SCol.ty : SCol → Ty
   | .bool _ => .bool
   | .int w _ => .int w
   | .str _ => .str
+
+def SCol.len : SCol → Nat
+  | .null n => n
+  | .bool xs => xs.length
+  | .int _ xs => xs.length
+  | .str xs => xs.length
+
+def SCol.divisorOk (op : ArithOp) : SCol → Bool
+  | .bool _ => !op.safens
+  | .str _ => !op.safens
+  | _ => true
 
 def rows1 {α γ} (f : Option α → KOut (Option γ)) : List (Option α) → KOut (List (Option γ))
   | x :: xs =>
@@ -240,6 +250,28 @@ def specCast (t : Ty) : SCol → KOut SCol
           else if s == "false" then KOut.ok false else KOut.err) xs).map .bool
     | .null => .err
 
+/-- Column-level arithmetic: an operand of type NULL gives NULL (of type NULL), as `analyze_type`
+says; `/` and `%` accept only a numeric or NULL-typed divisor. -/
+def specArithCol (op : ArithOp) (ca cb : SCol) : KOut SCol :=
+  if !cb.divisorOk op then .err else
+  match ca, cb with
+  | .int wa xs, .int wb ys => (rows2 (specArith op (wa.max wb)) xs ys).map (.int (wa.max wb))
+  | .null k, _ => .ok (.null k)
+  | _, .null k => .ok (.null k)
+  | _, _ => .err
+
+def specCmpCol (op : CmpOp) (ca cb : SCol) : KOut SCol :=
+  match ca, cb with
+  | .int _ xs, .int _ ys => (rows2 (fun x y => .ok (specCmp op.onInt x y)) xs ys).map .bool
+  | .bool xs, .bool ys =>
+    (rows2 (fun x y => .ok (specCmp (fun p q => op.onOrd (boolOrd p q)) x y)) xs ys).map .bool
+  | .str xs, .str ys =>
+    (rows2 (fun x y => .ok (specCmp (fun p q => op.onOrd (strOrd p q)) x y)) xs ys).map .bool
+  -- comparison with the untyped NULL: NULL (BOOLEAN) for every row of the left operand
+  | .null k, _ => .ok (.bool (List.replicate k none))
+  | ca, .null _ => .ok (.bool (List.replicate ca.len none))
+  | _, _ => .err
+
 def specSelRows {α} : List (Option Bool) → List (Option α) → List (Option α) → List (Option α)
   | c :: cs, a :: as, b :: bs => specSelect c a b :: specSelRows cs as bs
   | _, _, _ => []
@@ -260,6 +292,28 @@ def SCol.asBool : SCol → Option (List (Option Bool))
   | .null n => some (List.replicate n none)
   | _ => none
 
+def specAndCol (ca cb : SCol) : KOut SCol :=
+  match ca.asBool, cb.asBool with
+  | some xs, some ys => (rows2 (fun x y => .ok (specAnd x y)) xs ys).map .bool
+  | _, _ => .err
+
+def specOrCol (ca cb : SCol) : KOut SCol :=
+  match ca.asBool, cb.asBool with
+  | some xs, some ys => (rows2 (fun x y => .ok (specOr x y)) xs ys).map .bool
+  | _, _ => .err
+
+/-- CASE: the condition must be BOOLEAN, the branches of one type (two untyped NULLs included). -/
+def specIteCol (cc ct ce : SCol) : KOut SCol :=
+  match cc with
+  | .bool cs =>
+    match ct, ce with
+    | .int wa xs, .int wb ys => if wa == wb then (specSelM cs xs ys).map (.int wa) else .err
+    | .bool xs, .bool ys => (specSelM cs xs ys).map .bool
+    | .str xs, .str ys => (specSelM cs xs ys).map .str
+    | .null k, .null _ => .ok (.null k)
+    | _, _ => .err
+  | _ => .err
+
 /-- SQL semantics of the expression language, row by row (every operator is `rows1/rows2` of a
 scalar function of ONE row, so the result at row i depends on row i alone by construction). -/
 def specEval (chunk : List SCol) (n : Nat) : KExpr → KOut SCol
@@ -269,62 +323,39 @@ def specEval (chunk : List SCol) (n : Nat) : KExpr → KOut SCol
     match specEval chunk n a with
     | .ok ca =>
       match specEval chunk n b with
-      | .ok cb =>
-        match ca, cb with
-        | .int wa xs, .int wb ys => (rows2 (specArith op (wa.max wb)) xs ys).map (.int (wa.max wb))
-        | .null k, .int _ _ => .ok (.null k)
-        | .int _ _, .null k => .ok (.null k)
-        | .null k, .null _ => .ok (.null k)
-        | _, _ => .err
+      | .ok cb => specArithCol op ca cb
       | r => r
     | r => r
   | .cmp op a b =>
     match specEval chunk n a with
     | .ok ca =>
       match specEval chunk n b with
-      | .ok cb =>
-        match ca, cb with
-        | .int _ xs, .int _ ys => (rows2 (fun x y => .ok (specCmp op.onInt x y)) xs ys).map .bool
-        | .bool xs, .bool ys =>
-          (rows2 (fun x y => .ok (specCmp (fun p q => op.onOrd (boolOrd p q)) x y)) xs ys).map .bool
-        | .str xs, .str ys =>
-          (rows2 (fun x y => .ok (specCmp (fun p q => op.onOrd (strOrd p q)) x y)) xs ys).map .bool
-        | .null k, _ => .ok (.bool (List.replicate k none))
-        | _, .null k => .ok (.bool (List.replicate k none))
-        | _, _ => .err
+      | .ok cb => specCmpCol op ca cb
       | r => r
     | r => r
   | .and a b =>
     match specEval chunk n a with
     | .ok ca =>
       match specEval chunk n b with
-      | .ok cb =>
-        match ca.asBool, cb.asBool with
-        | some xs, some ys => (rows2 (fun x y => .ok (specAnd x y)) xs ys).map .bool
-        | _, _ => .err
+      | .ok cb => specAndCol ca cb
       | r => r
     | r => r
   | .or a b =>
     match specEval chunk n a with
     | .ok ca =>
       match specEval chunk n b with
-      | .ok cb =>
-        match ca.asBool, cb.asBool with
-        | some xs, some ys => (rows2 (fun x y => .ok (specOr x y)) xs ys).map .bool
-        | _, _ => .err
+      | .ok cb => specOrCol ca cb
       | r => r
     | r => r
   | .not a =>
     match specEval chunk n a with
-    | .ok ca =>
-      match ca.asBool with
-      | some xs => .ok (.bool (xs.map specNot))
-      | none => .err
+    | .ok (.bool xs) => .ok (.bool (xs.map specNot))
+    | .ok _ => .err     -- NOT of a non-BOOLEAN (also of the untyped NULL) is a type error
     | r => r
   | .neg a =>
     match specEval chunk n a with
     | .ok (.int w xs) => (rows1 (specNeg w) xs).map (.int w)
-    | .ok (.null k) => .ok (.null k)
+    | .ok (.null k) => .ok (.null k)    -- minus the untyped NULL is NULL
     | .ok _ => .err
     | r => r
   | .isnull a =>
@@ -340,15 +371,7 @@ def specEval (chunk : List SCol) (n : Nat) : KExpr → KOut SCol
       match specEval chunk n t with
       | .ok ct =>
         match specEval chunk n e with
-        | .ok ce =>
-          match cc.asBool with
-          | some cs =>
-            match ct, ce with
-            | .int wa xs, .int wb ys => if wa == wb then (specSelM cs xs ys).map (.int wa) else .err
-            | .bool xs, .bool ys => (specSelM cs xs ys).map .bool
-            | .str xs, .str ys => (specSelM cs xs ys).map .str
-            | _, _ => .err
-          | none => .err
+        | .ok ce => specIteCol cc ct ce
         | r => r
       | r => r
     | r => r
@@ -373,7 +396,6 @@ def specEval (chunk : List SCol) (n : Nat) : KExpr → KOut SCol
   | .like a p =>
     match specEval chunk n a with
     | .ok (.str xs) => .ok (.bool (xs.map (Option.map fun s => likeSpec p s)))
-    | .ok (.null k) => .ok (.bool (List.replicate k none))
     | .ok _ => .err
     | r => r
   | .substring s b c =>
